@@ -180,8 +180,17 @@ func NewWorldOn(b *Bucket) *World {
 	return w
 }
 
-// Close closes all clients.
+// Close closes all clients. When called as a deferred function while a panic is unwinding (a Go panic
+// inside an SQLite callback abandons C frames that may hold SQLite's mutexes) it does not touch SQLite:
+// it marks the process as poisoned and lets the panic continue.
 func (w *World) Close() {
+	if p := recover(); p != nil {
+		Poisoned = true
+		panic(p)
+	}
+	if Poisoned {
+		return
+	}
 	for _, c := range w.Clients {
 		c.Close()
 	}
